@@ -515,3 +515,9 @@ NOT_PROVED = [("rounding OUTSIDE the standard model: FlModel has neither overflo
                "the normal range; there (e.g. the 2^+-500 scale strata, ordinates 1e-310) the evidence is the oracle bound 16u scale + an absolute "
                "subnormal slack, the exact scale laws and the bit tie" if str(x).startswith("rounding of all branches is bounded by theorem") else x)
               for x in NOT_PROVED]
+
+
+# --- FINAL block (owner of C16/C17, after review2-b): theorems the claim text cites
+REQUIRED_THEOREMS = REQUIRED_THEOREMS + [t for t in [
+    "Cv.C16.sortedOk_iff", "Cv.C16.unchecked_eq_some_iff", "Cv.C16.interpOne_isSome_inside", "Cv.C16.interpOne_isSome_of_not_panic",
+    "Cv.C16.idxOf_left", "Cv.C16.idxOf_right", "Cv.C16.scan_before", "Cv.C16.scan_at", "Cv.C16.scan_all"] if t not in REQUIRED_THEOREMS]
